@@ -35,7 +35,25 @@ func Main(tier, replay string) {
 	typ, _, _ := fam.Types(tier)
 	lay := fam.Family{Name: "layout", Cases: c01.Cases(tier), BaseCfg: fam.DefaultCfg, PackSize: 100}
 	sec := fam.Security()
+	// the security family runs under a configuration with every kind of security scheme, so that the document-level
+	// sections (securitySchemes, info, servers) are compared on something richer than two API keys
+	sec.BaseCfg = func() map[string]any {
+		c := fam.DefaultCfg()
+		oc := c["openapiGeneratorConfig"].(map[string]any)
+		oc["securitySchemes"] = append(oc["securitySchemes"].([]any),
+			map[string]any{"description": "bearer", "name": "s3", "type": "http", "scheme": "bearer"},
+			map[string]any{"description": "oidc", "name": "s4", "type": "openIdConnect", "openIdConnectUrl": "https://id.example.com/.well-known/openid-configuration"},
+			map[string]any{"description": "oauth code", "name": "s5", "type": "oauth2",
+				"flows": map[string]any{"authorizationCode": map[string]any{"authorizationUrl": "https://id.example.com/auth", "tokenUrl": "https://id.example.com/token", "scopes": map[string]any{"read": "read things"}}}},
+			map[string]any{"description": "oauth implicit", "name": "s6", "type": "oauth2",
+				"flows": map[string]any{"implicit": map[string]any{"authorizationUrl": "https://id2.example.com/auth", "scopes": map[string]any{"write": "write things"}}}},
+			map[string]any{"description": "oauth machine", "name": "s7", "type": "oauth2",
+				"flows": map[string]any{"clientCredentials": map[string]any{"tokenUrl": "https://id3.example.com/token", "scopes": map[string]any{}},
+					"password": map[string]any{"tokenUrl": "https://id3.example.com/pw", "refreshUrl": "https://id3.example.com/refresh", "scopes": map[string]any{"admin": "everything"}}}})
+		return c
+	}
 	val := fam.Validators(tier)
+	seenProject := map[string]bool{}
 	var replayID string
 	if replay != "" {
 		_, v := core.LoadReplay(replay)
@@ -67,6 +85,22 @@ func Main(tier, replay string) {
 			accepted++
 			rep := func(oracle, what string, extra ...string) {
 				run.Report(core.Violation{Oracle: oracle, Features: v.Feat(extra...), What: what, Case: v.Case})
+			}
+			if d30, d31 := v.Docs["3.0.0"], v.Docs["3.1.0"]; d30 != nil && d31 != nil && !seenProject[v.Outcome.Dir] {
+				seenProject[v.Outcome.Dir] = true
+				for _, sct := range []struct {
+					name string
+					a, b any
+				}{{"components.securitySchemes", d30.SecuritySchemes(), d31.SecuritySchemes()}, {"info", d30["info"], d31["info"]}, {"servers", d30["servers"], d31["servers"]}} {
+					var ds []string
+					spec.Diff(sct.a, sct.b, "", &ds)
+					compared++
+					run.AddValidated(1)
+					if len(ds) > 0 {
+						sort.Strings(ds)
+						run.Report(core.Violation{Oracle: "same-document-sections", Features: map[string]string{"section": sct.name, "family": f.Name}, What: fmt.Sprintf("%s differs between 3.0.0 and 3.1.0: %s", sct.name, strings.Join(ds, " ;; ")), Case: v.Case})
+					}
+				}
 			}
 			ops30, ops31 := map[string]spec.Op{}, map[string]spec.Op{}
 			for _, op := range v.Ops("3.0.0") {
@@ -128,7 +162,7 @@ func Main(tier, replay string) {
 	run.Sample(map[string]any{"family": "validators", "case": val.Cases[0]})
 	run.Sample(map[string]any{"family": "signature", "case": sig.Cases[len(sig.Cases)-1]})
 	run.Bound = fmt.Sprintf("signature (%d), type (%d), layout (%d), security (%d) and validator-rule (%d) scenario families; 3.0.0 vs 3.1.0 for each", len(sig.Cases), len(typ.Cases), len(lay.Cases), len(sec.Cases), len(val.Cases))
-	run.Rule = "state = one scenario; transition = one run of the real pipeline generating both documents; validated = (operation | component) pairs whose dialect-neutral normal forms were compared (paths, verbs, ids, tags, parameters, bodies, response codes, refs, security, component types/properties/required/enums/composition/bounds)"
+	run.Rule = "state = one scenario; transition = one run of the real pipeline generating both documents; validated = (operation | component) pairs whose dialect-neutral normal forms were compared (paths, verbs, ids, tags, parameters, bodies, response codes, refs, security, component types/properties/required/enums/composition/bounds; per project also securitySchemes, info and servers)"
 	run.Assumptions = []string{"3.0 nullable == 3.1 null type; 3.0 boolean exclusive bounds == 3.1 numeric exclusive bounds", "the content-less 'default' response of the 3.0 generator is dialect noise", "descriptions, titles and summaries are not compared"}
 	os.RemoveAll(scratch)
 	run.Finish()
